@@ -10,5 +10,6 @@ CONSTANTS
 INVARIANT TypeOK
 INVARIANT BoxIn
 INVARIANT BoxIdempotent
+INVARIANT BoxScaleLemma
 PROPERTY BoxStep
 INVARIANT EmitBox
